@@ -88,6 +88,7 @@ pub fn all() -> Vec<Box<dyn Property>> {
     vec![
         Box::new(crate::props::c07::C07),
         Box::new(crate::props::c09::C09),
+        Box::new(crate::props::c10::C10),
         Box::new(crate::props::c19::C19),
         Box::new(crate::props::c20::C20),
     ]
